@@ -246,3 +246,728 @@ Example seq_terminates_nonvacuous :
   exists d ev, gen {| v_lookup_panics := false; v_inprog_unguarded := false |} cyclic_module (fuel_for cyclic_module) [] [(0%N,0%N)] = Ok (d, ev)
                /\ length (arrows ev) = 4.
 Proof. eexists. eexists. vm_compute. split; reflexivity. Qed.
+
+(* ================================================================ 3. what a visit appends to the body *)
+Definition ext (s s':st) (evs:list event) : Prop := out s' = out s ++ evs.
+Lemma ext_refl s : ext s s []. Proof. unfold ext. symmetry. apply app_nil_r. Qed.
+Lemma ext_trans s s1 s2 e1 e2 : ext s s1 e1 -> ext s1 s2 e2 -> ext s s2 (e1 ++ e2).
+Proof. unfold ext. intros H1 H2. rewrite H2, H1, app_assoc. reflexivity. Qed.
+Lemma ext_emit s e : ext s (emit s e) [e]. Proof. reflexivity. Qed.
+
+(* events that are neither call arrows nor block brackets nor section headers *)
+Definition quiet (e:event) : bool :=
+  match e with Return _ _ | Self _ | Activate _ | Deactivate _ | NoteOver _ | NoteSide => true | _ => false end.
+
+Ltac ext_solve :=
+  intros; unfold ext; unf_prims; brk_goal; cbn [out active cells visited syms fst snd];
+  first [ exists []; split; [cbn [Datatypes.app]; rewrite ?app_nil_r; reflexivity|reflexivity]
+        | eexists; split; [rewrite <- ?app_assoc; reflexivity|reflexivity] ].
+Lemma pre_ext s from a e ap ep sh caller :
+  exists q, ext s (ve_early (ve_arrow (ve_reg s from a) from a e ap ep) from a sh caller)
+                ((if arrow_drawn from ap ep then [Arrow (sender_of from) a e] else []) ++ q) /\ forallb quiet q = true.
+Proof. ext_solve. Qed.
+Lemma cut_ext V s from a ep up : exists q, ext s (ve_cut V s from a ep up) q /\ forallb quiet q = true.
+Proof. ext_solve. Qed.
+Lemma activated_ext s a b : exists q, ext s (fst (activated s a b)) q /\ forallb quiet q = true.
+Proof. ext_solve. Qed.
+Lemma fire_ext s c : exists q, ext s (fire s c) q /\ forallb quiet q = true.
+Proof. ext_solve. Qed.
+
+(* the walk's output: its own events, with one chunk per call *)
+Inductive Trace (Q:id -> id -> bool -> list event -> Prop) : list instr -> list event -> Prop :=
+| T_nil : Trace Q [] []
+| T_emit e il evs : Trace Q il evs -> Trace Q (IEmit e :: il) (e :: evs)
+| T_call t te last il c evs : Q t te last c -> Trace Q il evs -> Trace Q (ICall t te last :: il) (c ++ evs).
+
+Lemma run_trace call (Inv:st -> Prop) (Q:id -> id -> bool -> list event -> Prop) :
+  (forall s e, Inv s -> Inv (emit s e)) ->
+  (forall s t te last s', Inv s -> call s t te last = Ok s' -> Inv s' /\ exists evs, ext s s' evs /\ Q t te last evs) ->
+  forall il s s', Inv s -> run call il s = Ok s' -> exists evs, ext s s' evs /\ Trace Q il evs.
+Proof.
+  intros He Hc. induction il as [|i r IH]; intros s s' Hs H; cbn [run] in H.
+  - injection H as <-. exists []. split; [apply ext_refl|constructor].
+  - destruct i as [e|t te last].
+    + destruct (IH _ _ (He _ e Hs) H) as (evs & Hx & Ht). exists ([e] ++ evs). split; [eapply ext_trans; [apply ext_emit|exact Hx]|constructor; exact Ht].
+    + destruct (call s t te last) as [s1| | |] eqn:E; try discriminate. cbn [bind] in H.
+      destruct (Hc _ _ _ _ _ Hs E) as (Hs1 & c & Hx1 & Hq). destruct (IH _ _ Hs1 H) as (evs & Hx & Ht).
+      exists (c ++ evs). split; [eapply ext_trans; eassumption|constructor; assumption].
+Qed.
+
+(* ---- blocks ---- *)
+(* the stack holds one entry per open block: true for alt (which alone admits else) *)
+Fixpoint blk (stk:list bool) (evs:list event) : option (list bool) :=
+  match evs with
+  | [] => Some stk
+  | Open _ :: r => blk (false :: stk) r
+  | OpenAlt :: r => blk (true :: stk) r
+  | Else :: r => match stk with true :: _ => blk stk r | _ => None end
+  | Close :: r => match stk with _ :: stk' => blk stk' r | [] => None end
+  | Section _ _ :: r => match stk with [] => blk [] r | _ => None end
+  | _ :: r => blk stk r
+  end.
+Definition blocks_closed (evs:list event) : Prop := blk [] evs = Some [].
+Definition balanced (evs:list event) : Prop := forall stk, blk stk evs = Some stk.
+
+Lemma blk_app x y stk : blk stk (x ++ y) = match blk stk x with Some stk' => blk stk' y | None => None end.
+Proof.
+  revert stk. induction x as [|e x IH]; intros stk; [reflexivity|].
+  destruct e; cbn [blk Datatypes.app]; try apply IH.
+  - destruct stk; [apply IH|reflexivity].
+  - destruct stk as [|[|] ?]; try reflexivity. apply IH.
+  - destruct stk; [reflexivity|apply IH].
+Qed.
+Lemma balanced_nil : balanced []. Proof. intros stk. reflexivity. Qed.
+Lemma balanced_app x y : balanced x -> balanced y -> balanced (x ++ y).
+Proof. intros Hx Hy stk. rewrite blk_app, Hx. apply Hy. Qed.
+Lemma balanced_quiet q : forallb quiet q = true -> balanced q.
+Proof.
+  induction q as [|e q IH]; [intros; apply balanced_nil|]. cbn [forallb]. intros H. apply andb_prop in H as [He Hq].
+  intros stk. destruct e; try discriminate; cbn [blk]; apply IH, Hq.
+Qed.
+Lemma balanced_arrow_opt (b:bool) e : balanced (if b then [e] else []) -> True. Proof. trivial. Qed.
+
+Fixpoint wf_stmt (x:stmt) : bool :=
+  match x with
+  | Block _ b => forallb wf_stmt b
+  | Alt cs => negb (is_nil cs) && forallb (forallb wf_stmt) cs
+  | _ => true
+  end.
+
+Section Blocks.
+  Variable a : id.
+  Variable sndr : part.
+  Notation fstmt := (flat_stmt a sndr).
+  Notation flist := (flat_list a sndr).
+  Notation falts := (flat_alts a sndr).
+
+  Lemma balanced_list_of l : Forall (fun x => wf_stmt x = true -> forall last, balanced (skel (fstmt x last))) l ->
+    forallb wf_stmt l = true -> forall lastp, balanced (skel (flist l lastp)).
+  Proof.
+    induction 1 as [|y r Hy _ IH]; intros Hw lastp; [apply balanced_nil|].
+    cbn [forallb] in Hw. apply andb_prop in Hw as [Hw1 Hw2].
+    rewrite flat_list_cons, skel_app. apply balanced_app; [apply Hy, Hw1|apply IH, Hw2].
+  Qed.
+  Lemma balanced_stmt x : wf_stmt x = true -> forall last, balanced (skel (fstmt x last)).
+  Proof.
+    induction x as [t te| | |k|k b IH|cs IH] using stmt_ind'; intros Hw last; try (intros stk; reflexivity).
+    - rewrite flat_block. intros stk.
+      change (skel (IEmit (Open (kw_of k)) :: flist b last ++ [IEmit Close])) with (Open (kw_of k) :: skel (flist b last ++ [IEmit Close])).
+      rewrite skel_app. cbn [blk]. rewrite blk_app, (balanced_list_of b IH Hw). reflexivity.
+    - cbn [wf_stmt] in Hw. apply andb_prop in Hw as [Hne Hw]. rewrite flat_alt, skel_app. intros stk. rewrite blk_app.
+      assert (Hrest : forall r, Forall (Forall (fun x => wf_stmt x = true -> forall last, balanced (skel (fstmt x last)))) r ->
+                                forallb (forallb wf_stmt) r = true -> blk (true :: stk) (skel (falts last r false)) = Some (true :: stk)).
+      { induction 1 as [|c r Hc _ IHr]; intros Hwr; [reflexivity|].
+        cbn [forallb] in Hwr. apply andb_prop in Hwr as [Hwc Hwr].
+        rewrite flat_alts_cons.
+        change (skel (IEmit Else :: flist c (last && is_nil r) ++ falts last r false)) with (Else :: skel (flist c (last && is_nil r) ++ falts last r false)).
+        cbn [blk]. rewrite skel_app, blk_app, (balanced_list_of c Hc Hwc). apply IHr, Hwr. }
+      destruct IH as [|c r Hc Hr]; [discriminate|].
+      cbn [forallb] in Hw. apply andb_prop in Hw as [Hwc Hwr].
+      rewrite flat_alts_cons.
+      change (skel (IEmit OpenAlt :: flist c (last && is_nil r) ++ falts last r false)) with (OpenAlt :: skel (flist c (last && is_nil r) ++ falts last r false)).
+      cbn [blk]. rewrite skel_app, blk_app, (balanced_list_of c Hc Hwc), (Hrest r Hr Hwr). reflexivity.
+  Qed.
+  Theorem balanced_flat_list l lastp : forallb wf_stmt l = true -> balanced (skel (flist l lastp)).
+  Proof. intros Hw. apply balanced_list_of; [|exact Hw]. apply Forall_forall. intros x _. apply balanced_stmt. Qed.
+End Blocks.
+
+Lemma trace_blk (Q:id -> id -> bool -> list event -> Prop) il evs : (forall t te last c, Q t te last c -> balanced c) -> Trace Q il evs ->
+  forall stk, blk stk evs = blk stk (skel il).
+Proof.
+  intros HQ. induction 1 as [|e il evs _ IH|t te last il c evs Hq _ IH]; intros stk; [reflexivity| |].
+  - change (skel (IEmit e :: il)) with (e :: skel il). destruct e; cbn [blk]; try apply IH.
+    + destruct stk; [apply IH|reflexivity].
+    + destruct stk as [|[|] ?]; try reflexivity. apply IH.
+    + destruct stk; [reflexivity|apply IH].
+  - change (skel (ICall t te last :: il)) with (skel il). rewrite blk_app, (HQ _ _ _ _ Hq). apply IH.
+Qed.
+
+(* ---- arrows ---- *)
+Lemma arrows_app x y : arrows (x ++ y) = arrows x ++ arrows y.
+Proof. apply filter_app. Qed.
+Lemma arrows_quiet q : forallb quiet q = true -> arrows q = [].
+Proof.
+  induction q as [|e q IH]; [reflexivity|]. cbn [forallb]. intros H. apply andb_prop in H as [He Hq].
+  destruct e; try discriminate; cbn [arrows filter is_arrow]; apply IH, Hq.
+Qed.
+Lemma trace_arrows a sndr (Q:id -> id -> bool -> list event -> Prop) (G:id*id -> list event) il evs :
+  (forall t te last c, Q t te last c -> arrows c = G (t,te)) -> Forall (instr_ok a sndr) il -> Trace Q il evs ->
+  arrows evs = flat_map G (calls_of il).
+Proof.
+  intros HQ Hok. induction 1 as [|e il evs _ IH|t te last il c evs Hq _ IH]; [reflexivity| |].
+  - inversion Hok as [|? ? He Hok']; subst. change (calls_of (IEmit e :: il)) with (calls_of il).
+    rewrite <- (IH Hok'). destruct e; cbn in He; try contradiction; reflexivity.
+  - inversion Hok as [|? ? _ Hok']; subst. change (calls_of (ICall t te last :: il)) with ((t,te) :: calls_of il).
+    cbn [flat_map]. rewrite arrows_app, (HQ _ _ _ _ Hq), (IH Hok'). reflexivity.
+Qed.
+
+(* ================================================================ 4. blocks are closed; the call arrows are the reference walk *)
+Definition wf_module (m:module) : Prop :=
+  forall a e ap ep, lookup m a e = Some (ap, ep) -> forallb wf_stmt (ep_body ep) = true.
+Definition wf_module_b (m:module) : bool :=
+  forallb (fun p => forallb (fun q => forallb wf_stmt (ep_body (snd q))) (app_eps (snd p))) m.
+Lemma wf_module_b_ok m : wf_module_b m = true -> wf_module m.
+Proof.
+  intros H a e ap ep L. unfold lookup in L. destruct (assoc a m) as [ap'|] eqn:Ea; [|discriminate].
+  destruct (assoc e (app_eps ap')) as [ep'|] eqn:Ee; [|discriminate]. injection L as -> ->.
+  unfold wf_module_b in H. rewrite forallb_forall in H. specialize (H _ (assoc_in _ _ _ Ea)). cbn [snd] in H.
+  rewrite forallb_forall in H. apply (H _ (assoc_in _ _ _ Ee)).
+Qed.
+
+Lemma ref_calls_eq m bbs f inprog from a e :
+  ref_calls m bbs (S f) inprog from a e =
+  match lookup m a e with
+  | None => []
+  | Some (ap, ep) =>
+      (if arrow_drawn from ap ep then [Arrow (sender_of from) a e] else [])
+      ++ (if is_nil (ep_body ep) || is_cut (assoc2 (a,e) bbs) || existsb (key_eqb (a,e)) inprog then []
+          else flat_map (fun c => ref_calls m bbs f ((a,e) :: inprog) (Some a) (fst c) (snd c)) (calls_list (ep_body ep)))
+  end.
+Proof. reflexivity. Qed.
+
+Section Output.
+  Variable V : variant.
+  Variable m : module.
+
+  Lemma visit_endpoint_out fuel : forall bbs s from a e caller s',
+    visit_endpoint V m fuel bbs s from a e caller = Ok s' ->
+    exists evs, ext s s' evs /\ (wf_module m -> balanced evs) /\ arrows evs = ref_calls m bbs fuel (visited s) from a e.
+  Proof.
+    induction fuel as [|f IH]; intros bbs s from a e caller s' H; [discriminate|].
+    rewrite visit_endpoint_eq in H. rewrite ref_calls_eq.
+    destruct (lookup m a e) as [[ap ep]|] eqn:L; [|exfalso; eapply lookup_fail_not_ok, H].
+    cbv zeta in H.
+    destruct (pre_ext s from a e ap ep (is_shown (ret_payload (ep_body ep))) caller) as (q1 & X1 & Q1).
+    set (s2 := ve_early _ _ _ _ _) in *.
+    set (A := if arrow_drawn from ap ep then [Arrow (sender_of from) a e] else []) in *.
+    assert (HA : balanced A) by (subst A; destruct (arrow_drawn from ap ep); intros stk; reflexivity).
+    assert (HAa : arrows A = A) by (subst A; destruct (arrow_drawn from ap ep); reflexivity).
+    destruct (ep_body ep) as [|x b] eqn:Eb.
+    - injection H as <-. exists (A ++ q1). split; [exact X1|]. split.
+      + intros _. apply balanced_app; [exact HA|apply balanced_quiet, Q1].
+      + rewrite arrows_app, HAa, (arrows_quiet _ Q1). reflexivity.
+    - cbn [is_nil orb]. assert (Ev : is_visited s2 a e = existsb (key_eqb (a, e)) (visited s)).
+      { unfold is_visited. subst s2. rewrite visited_pre. reflexivity. }
+      rewrite <- Ev. destruct (is_cut _ || is_visited s2 a e) eqn:C.
+      + injection H as <-. destruct (cut_ext V s2 from a ep (assoc2 (a,e) bbs)) as (q2 & X2 & Q2).
+        exists ((A ++ q1) ++ q2). split; [eapply ext_trans; eassumption|]. split.
+        * intros _. repeat apply balanced_app; auto using balanced_quiet.
+        * rewrite !arrows_app, HAa, (arrows_quiet _ Q1), (arrows_quiet _ Q2), !app_nil_r. reflexivity.
+      + match type of H with bind ?r _ = _ => destruct r as [s5| | |] eqn:W; try discriminate end.
+        cbn [bind] in H. injection H as <-.
+        destruct (activated_ext s2 a (suppr ap)) as (q2 & X2 & Q2).
+        destruct (fire_ext s5 (snd (activated s2 a (suppr ap)))) as (q3 & X3 & Q3).
+        rewrite walk_flat in W.
+        apply (run_trace _ (fun s1 => visited s1 = (a,e) :: visited s)
+                 (fun t te last c => (wf_module m -> balanced c) /\ arrows c = ref_calls m bbs f ((a,e) :: visited s) (Some a) t te)) in W.
+        * destruct W as (ew & Xw & Tw).
+          exists ((((A ++ q1) ++ q2) ++ ew) ++ q3). split.
+          { eapply ext_trans; [|exact X3]. eapply ext_trans; [|exact Xw]. eapply ext_trans; eassumption. }
+          split.
+          { intros Hw. repeat apply balanced_app; auto using balanced_quiet.
+            intros stk. rewrite (trace_blk _ _ _ (fun t te last c Hq => proj1 Hq Hw) Tw).
+            apply balanced_flat_list. rewrite <- Eb. eapply Hw, L. }
+          { rewrite !arrows_app, HAa, (arrows_quiet _ Q1), (arrows_quiet _ Q2), (arrows_quiet _ Q3), !app_nil_r.
+            f_equal. rewrite <- (calls_flat_list a (sender_of from) (x :: b) true).
+            apply (trace_arrows a (sender_of from) _ (fun c => ref_calls m bbs f ((a,e) :: visited s) (Some a) (fst c) (snd c)) _ _
+                     (fun t te last c Hq => proj2 Hq) (instrs_ok_list _ _ _ _) Tw). }
+        * intros s1 ev H1. exact H1.
+        * intros s1 t te last s1' H1 Hc. split; [rewrite (visit_endpoint_visited _ _ _ _ _ _ _ _ _ _ Hc); exact H1|].
+          destruct (IH _ _ _ _ _ _ _ Hc) as (c & Xc & Bc & Ac). exists c. rewrite H1 in Ac. auto.
+        * unfold push_visited, with_visited. cbn [visited]. rewrite visited_activated. subst s2. rewrite visited_pre. reflexivity.
+  Qed.
+
+  (* the reference for a whole run: one reference walk per start entry, under the blackbox map of that entry *)
+  Fixpoint ref_entries (fuel:nat) (all:list (id*id)) (bbs:bbmap) (es:list (id*id)) : list event :=
+    match es with
+    | [] => []
+    | (a,e) :: r => let bbs' := mark_others all (a,e) bbs in ref_calls m bbs' fuel [] None a e ++ ref_entries fuel all bbs' r
+    end.
+
+  Lemma run_entries_out fuel all : forall es bbs s s',
+    run_entries V m fuel all bbs s es = Ok s' ->
+    exists evs, ext s s' evs /\ (wf_module m -> forall stk, blk [] evs = Some stk -> stk = []) /\ (wf_module m -> blk [] evs <> None)
+                /\ arrows evs = ref_entries fuel all bbs es.
+  Proof.
+    induction es as [|[a e] r IH]; intros bbs s s' H; cbn [run_entries] in H.
+    - injection H as <-. exists []. split; [apply ext_refl|]. repeat split; try discriminate. intros _ stk [= <-]. reflexivity.
+    - destruct (lookup m a e); [|discriminate].
+      match type of H with bind ?r _ = _ => destruct r as [s1| | |] eqn:W; try discriminate end. cbn [bind] in H.
+      apply visit_endpoint_out in W as (c & Xc & Bc & Ac). apply IH in H as (evs & Xe & B1 & B2 & Ae).
+      exists (([Section a e] ++ c) ++ evs). split.
+      { eapply ext_trans; [|exact Xe]. eapply ext_trans; [apply ext_emit|]. exact Xc. }
+      assert (Hb : wf_module m -> blk [] (([Section a e] ++ c) ++ evs) = blk [] evs).
+      { intros Hw. rewrite blk_app. cbn [Datatypes.app blk]. rewrite (Bc Hw). reflexivity. }
+      repeat split.
+      + intros Hw stk. rewrite (Hb Hw). apply B1, Hw.
+      + intros Hw. rewrite (Hb Hw). apply B2, Hw.
+      + cbn [ref_entries]. rewrite !arrows_app, Ac, Ae. reflexivity.
+  Qed.
+
+  (* every opened block is closed (and else only inside alt, section headers only outside any block) *)
+  Theorem seq_blocks_closed fuel bbs starts d ev :
+    wf_module m -> gen V m fuel bbs starts = Ok (d, ev) -> blocks_closed ev.
+  Proof.
+    intros Hw H. unfold gen, gen_st in H. destruct (run_entries _ _ _ _ _ _ _) as [s| | |] eqn:R; try discriminate.
+    cbn [bind] in H. injection H as _ <-. apply run_entries_out in R as (evs & X & B1 & B2 & _).
+    unfold ext in X. cbn [out init Datatypes.app] in X. rewrite X. unfold blocks_closed.
+    specialize (B1 Hw). specialize (B2 Hw).
+    destruct (blk [] evs) as [stk|]; [rewrite (B1 _ eq_refl); reflexivity|exfalso; apply B2; reflexivity].
+  Qed.
+
+  (* the call arrows are exactly the calls reachable from the start(s) in source order, a call in progress (or
+     black-boxed) shown but not expanded *)
+  Theorem seq_follows_calls fuel bbs starts d ev :
+    gen V m fuel bbs starts = Ok (d, ev) -> arrows ev = ref_entries fuel starts (make_bbs bbs) starts.
+  Proof.
+    intros H. unfold gen, gen_st in H. destruct (run_entries _ _ _ _ _ _ _) as [s| | |] eqn:R; try discriminate.
+    cbn [bind] in H. injection H as _ <-. apply run_entries_out in R as (evs & X & _ & _ & A).
+    unfold ext in X. cbn [out init Datatypes.app] in X. rewrite X. exact A.
+  Qed.
+End Output.
+
+(* an alternative without any choice (the parser never produces one; a hand-made protobuf can) writes "end" without
+   "alt": the hypothesis wf_module of seq_blocks_closed is needed *)
+Definition empty_alt_module : module := [(0%N, {| app_pats := []; app_eps := [(0%N, {| ep_hidden := false; ep_body := [Alt []] |})] |})].
+Theorem seq_blocks_closed_refuted_for_empty_alt :
+  exists d ev, gen {| v_lookup_panics := false; v_inprog_unguarded := false |} empty_alt_module (fuel_for empty_alt_module) [] [(0%N,0%N)] = Ok (d, ev)
+               /\ blk [] ev = None.
+Proof. eexists. eexists. vm_compute. split; reflexivity. Qed.
+Example seq_blocks_closed_nonvacuous : wf_module cyclic_module.
+Proof. apply wf_module_b_ok. reflexivity. Qed.
+
+(* ================================================================ 5. activations: balanced, never negative; senders active *)
+Definition suppressed (m:module) (x:id) : bool := match assoc x m with Some ap => suppr ap | None => false end.
+
+(* the judge: replays activate / deactivate on a counter per participant; a deactivate at zero is an error; with
+   strict=true a call arrow whose sender is neither active nor a suppressed (human / cron) participant is an error *)
+Fixpoint track (strict:bool) (m:module) (l:list (id*nat)) (evs:list event) : option (list (id*nat)) :=
+  match evs with
+  | [] => Some l
+  | Activate a :: r => track strict m (set a (S (get a l)) l) r
+  | Deactivate a :: r => match get a l with O => None | S n => track strict m (set a n l) r end
+  | Arrow (P x) _ _ :: r => if strict && negb (suppressed m x || (0 <? get x l)) then None else track strict m l r
+  | _ :: r => track strict m l r
+  end.
+
+Lemma track_app strict m l x y :
+  track strict m l (x ++ y) = match track strict m l x with Some l' => track strict m l' y | None => None end.
+Proof.
+  revert l. induction x as [|e x IH]; intros l; [reflexivity|].
+  destruct e as [| [|p] ? ? | | | | | | | | | |]; cbn [track Datatypes.app]; try apply IH.
+  - destruct (strict && _); [reflexivity|apply IH].
+  - destruct (get a l); [reflexivity|apply IH].
+Qed.
+
+Lemma get_set_same a n l : get a (set a n l) = n.
+Proof. induction l as [|[j x] t IH]; cbn [set get]; [rewrite N.eqb_refl; reflexivity|].
+  destruct (N.eqb_spec a j) as [->|Hn]; cbn [get]; [rewrite N.eqb_refl; reflexivity|]. destruct (N.eqb_spec a j); [contradiction|exact IH]. Qed.
+Lemma get_set_other x a n l : x <> a -> get x (set a n l) = get x l.
+Proof. intros Hx. induction l as [|[j y] t IH]; cbn [set get].
+  - destruct (N.eqb_spec x a); [contradiction|reflexivity].
+  - destruct (N.eqb_spec a j) as [->|Hn]; cbn [get].
+    + destruct (N.eqb_spec x j); [contradiction|reflexivity].
+    + destruct (N.eqb_spec x j); [reflexivity|exact IH]. Qed.
+Lemma get_set x a n l : get x (set a n l) = if N.eqb x a then n else get x l.
+Proof. destruct (N.eqb_spec x a) as [->|H]; [apply get_set_same|apply get_set_other, H]. Qed.
+
+(* armed cells per participant *)
+Definition armed (x:id) (cs:list (id*bool)) : nat := length (filter (fun c => N.eqb (fst c) x && snd c) cs).
+Definition arm (cs:list (id*bool)) (i:nat) (x:id) : Prop := nth_error cs i = Some (x, true).
+Lemma armed_app x l1 l2 : armed x (l1 ++ l2) = armed x l1 + armed x l2.
+Proof. unfold armed. rewrite filter_app, app_length. reflexivity. Qed.
+Lemma disarm_length c l : length (disarm c l) = length l.
+Proof. revert c. induction l as [|[y b] t IH]; intros [|c]; cbn [disarm length]; auto. Qed.
+Lemma arm_disarm l c i x : arm (disarm c l) i x -> arm l i x /\ i <> c.
+Proof.
+  unfold arm. revert c i. induction l as [|[y b] t IH]; intros c i; [destruct c; cbn [disarm]; destruct i; discriminate|].
+  destruct c as [|c], i as [|i]; cbn [disarm nth_error]; try discriminate; auto.
+  intros H. apply IH in H as [H1 H2]. split; [exact H1|congruence].
+Qed.
+Lemma arm_disarm_other l c i x : arm l i x -> i <> c -> arm (disarm c l) i x.
+Proof.
+  unfold arm. revert c i. induction l as [|[y b] t IH]; intros c i; [destruct i; discriminate|].
+  destruct c as [|c], i as [|i]; cbn [disarm nth_error]; auto; try congruence.
+Qed.
+Lemma armed_disarm l c y x : arm l c y -> armed x (disarm c l) + (if N.eqb y x then 1 else 0) = armed x l.
+Proof.
+  unfold arm, armed. revert c. induction l as [|[z b] t IH]; intros c; [destruct c; discriminate|].
+  destruct c as [|c]; cbn [disarm nth_error].
+  - intros [= -> ->]. cbn [filter fst snd]. rewrite andb_false_r, andb_true_r. destruct (N.eqb y x); cbn [length]; lia.
+  - intros H. specialize (IH c H). cbn [filter]. destruct (N.eqb y x); match goal with |- context [if ?c then _ :: _ else _] => destruct c end; cbn [length]; lia.
+Qed.
+Lemma arm_armed l i x : arm l i x -> 1 <= armed x l.
+Proof.
+  unfold arm, armed. revert i. induction l as [|[z b] t IH]; intros [|i]; cbn [nth_error]; try discriminate.
+  - intros [= -> ->]. cbn [filter fst snd]. rewrite N.eqb_refl. cbn [andb length]. lia.
+  - intros H. specialize (IH i H). cbn [filter]. match goal with |- context [if ?c then _ :: _ else _] => destruct c end; cbn [length]; lia.
+Qed.
+Lemma arm_app_l l1 l2 i x : arm l1 i x -> arm (l1 ++ l2) i x.
+Proof. unfold arm. intros H. rewrite nth_error_app1; [exact H|]. apply nth_error_Some. congruence. Qed.
+Lemma arm_app_inv l1 y b i x : arm (l1 ++ [(y,b)]) i x -> arm l1 i x \/ (i = length l1 /\ y = x /\ b = true).
+Proof.
+  unfold arm. intros H. destruct (Nat.lt_ge_cases i (length l1)) as [Hl|Hl].
+  - rewrite nth_error_app1 in H by exact Hl. left. exact H.
+  - rewrite nth_error_app2 in H by exact Hl. destruct (i - length l1) as [|k] eqn:E; cbn [nth_error] in H.
+    + injection H as -> ->. right. repeat split. lia.
+    + destruct k; discriminate.
+Qed.
+Lemma arm_lt l i x : arm l i x -> i < length l.
+Proof. unfold arm. intros H. apply nth_error_Some. congruence. Qed.
+
+(* field access through the primitives *)
+Lemma active_emit s e : active (emit s e) = active s. Proof. reflexivity. Qed.
+Lemma cells_emit s e : cells (emit s e) = cells s. Proof. reflexivity. Qed.
+Lemma out_emit s e : out (emit s e) = out s ++ [e]. Proof. reflexivity. Qed.
+Lemma cells_activate s a : cells (activate s a) = cells s. Proof. reflexivity. Qed.
+Lemma cells_deactivate s a : cells (deactivate s a) = cells s. Proof. unfold deactivate. destruct (get a (active s)); reflexivity. Qed.
+Lemma get_activate x s a : get x (active (activate s a)) = if N.eqb x a then S (get a (active s)) else get x (active s).
+Proof. unfold activate. cbn [active emit with_active]. apply get_set. Qed.
+Lemma get_deactivate x s a : get x (active (deactivate s a)) = if N.eqb x a then pred (get a (active s)) else get x (active s).
+Proof.
+  unfold deactivate. destruct (get a (active s)) as [|n] eqn:E.
+  - destruct (N.eqb_spec x a) as [->|]; [rewrite E; reflexivity|reflexivity].
+  - cbn [active emit with_active]. rewrite get_set. reflexivity.
+Qed.
+
+Definition strict_of (V:variant) : bool := negb (v_inprog_unguarded V).
+Section Activations.
+  Variable V : variant.
+  Variable m : module.
+  Notation strict := (strict_of V).
+
+  Definition Tr (s:st) : Prop := track strict m [] (out s) = Some (active s).
+  Definition cmp (n k:nat) : Prop := if strict then n = k else n <= k.
+  Definition Cn (s:st) : Prop := forall x, cmp (get x (active s)) (armed x (cells s)).
+  Definition sender_ok (s:st) (from:option id) : Prop :=
+    strict = true -> match from with Some x => suppressed m x = true \/ 0 < get x (active s) | None => True end.
+
+  Definition neutral (e:event) : bool :=
+    match e with Activate _ | Deactivate _ | Arrow (P _) _ _ => false | _ => true end.
+
+  Lemma Tr_emit s e : neutral e = true -> Tr s -> Tr (emit s e).
+  Proof.
+    unfold Tr. intros He H. rewrite out_emit, track_app, H, active_emit.
+    destruct e as [| [|p] ? ? | | | | | | | | | |]; try discriminate; reflexivity.
+  Qed.
+  Lemma Tr_arrow s from a e : sender_ok s from -> Tr s -> Tr (emit s (Arrow (sender_of from) a e)).
+  Proof.
+    unfold Tr, sender_ok. intros Hs H. rewrite out_emit, track_app, H, active_emit.
+    destruct from as [x|]; cbn [sender_of track]; [|reflexivity].
+    destruct strict; cbn [andb]; [|reflexivity]. destruct (Hs eq_refl) as [-> | Hp]; [reflexivity|].
+    apply Nat.ltb_lt in Hp. rewrite Hp, orb_true_r. reflexivity.
+  Qed.
+  Lemma Tr_activate s a : Tr s -> Tr (activate s a).
+  Proof. unfold Tr, activate. intros H. rewrite out_emit. cbn [out with_active active emit]. rewrite track_app, H. reflexivity. Qed.
+  Lemma Tr_deactivate s a : Tr s -> Tr (deactivate s a).
+  Proof.
+    unfold Tr, deactivate. intros H. destruct (get a (active s)) as [|n] eqn:E; [exact H|].
+    rewrite out_emit. cbn [out with_active active emit]. rewrite track_app, H. cbn [track]. rewrite E. reflexivity.
+  Qed.
+  Lemma Tr_same s s' : out s' = out s -> active s' = active s -> Tr s -> Tr s'.
+  Proof. unfold Tr. intros -> ->. auto. Qed.
+
+  Lemma Tr_fire s c : Tr s -> Tr (fire s c).
+  Proof.
+    intros H. unfold fire. destruct (nth_error (cells s) c) as [[y [|]]|]; try exact H.
+    apply Tr_deactivate. eapply Tr_same; [| |exact H]; reflexivity.
+  Qed.
+  Lemma Tr_activated s a b : Tr s -> Tr (fst (activated s a b)).
+  Proof.
+    intros H. unfold activated. cbn [fst]. destruct b.
+    - eapply Tr_same; [| |exact H]; reflexivity.
+    - eapply Tr_same; [| |apply (Tr_activate s a H)]; reflexivity.
+  Qed.
+  Lemma Tr_reg s from a : Tr s -> Tr (ve_reg s from a).
+  Proof. intros H. eapply Tr_same; [| |exact H]; unfold ve_reg, uniq_var; brk_goal; reflexivity. Qed.
+  Lemma Tr_cut s from a ep up : Tr s -> Tr (ve_cut V s from a ep up).
+  Proof.
+    intros H. unfold ve_cut. cbv zeta.
+    destruct up as [u|]; destruct (is_shown _); destruct (ep_hidden ep); try destruct (u_comment u); destruct (v_inprog_unguarded V);
+      cbn [is_some orb]; repeat first [exact H | apply Tr_deactivate | apply Tr_activate | apply Tr_emit; [reflexivity|]].
+  Qed.
+  (* counters against armed cells *)
+  Lemma armed_single x a b : armed x [(a,b)] = if N.eqb a x && b then 1 else 0.
+  Proof. unfold armed. cbn [filter fst snd]. destruct (N.eqb a x && b); reflexivity. Qed.
+  Lemma Cn_fire s c : Cn s -> Cn (fire s c).
+  Proof.
+    intros H. unfold fire. destruct (nth_error (cells s) c) as [[y [|]]|] eqn:E; try exact H.
+    intros x. rewrite get_deactivate, cells_deactivate. cbn [cells with_cells active].
+    pose proof (armed_disarm (cells s) c y x E) as Hd. pose proof (arm_armed _ _ _ E) as H1.
+    destruct (N.eqb_spec x y) as [->|Hn].
+    - rewrite N.eqb_refl in Hd. specialize (H y). unfold cmp in *. destruct strict; lia.
+    - destruct (N.eqb_spec y x) as [->|_]; [contradiction|]. specialize (H x). unfold cmp in *. destruct strict; lia.
+  Qed.
+  Lemma cells_activated s a b : cells (fst (activated s a b)) = cells s ++ [(a, negb b)].
+  Proof. unfold activated. destruct b; reflexivity. Qed.
+  Lemma snd_activated s a b : snd (activated s a b) = length (cells s).
+  Proof. unfold activated. destruct b; reflexivity. Qed.
+  Lemma Cn_activated s a b : Cn s -> Cn (fst (activated s a b)).
+  Proof.
+    intros H x. rewrite cells_activated, armed_app, armed_single. specialize (H x). unfold activated. cbn [fst]. destruct b; cbn [negb].
+    - rewrite andb_false_r. cbn [active with_cells]. unfold cmp in *. destruct strict; lia.
+    - rewrite andb_true_r. change (active (with_cells (activate s a) (cells (activate s a) ++ [(a, true)]))) with (active (activate s a)).
+      rewrite get_activate. rewrite (N.eqb_sym a x). destruct (N.eqb_spec x a) as [->|_]; unfold cmp in *; destruct strict; lia.
+  Qed.
+  Lemma cells_cut s from a ep up : cells (ve_cut V s from a ep up) = cells s.
+  Proof.
+    unfold ve_cut. cbv zeta. destruct up as [u|]; destruct (is_shown _); destruct (ep_hidden ep); try destruct (u_comment u); destruct (v_inprog_unguarded V);
+      cbn [is_some orb]; rewrite ?cells_deactivate, ?cells_emit, ?cells_activate; reflexivity.
+  Qed.
+  Lemma get_cut s from a ep up x :
+    get x (active (ve_cut V s from a ep up)) <= get x (active s)
+    /\ (v_inprog_unguarded V = false -> get x (active (ve_cut V s from a ep up)) = get x (active s)).
+  Proof.
+    unfold ve_cut. cbv zeta. destruct up as [u|]; destruct (is_shown _); destruct (ep_hidden ep); try destruct (u_comment u); destruct (v_inprog_unguarded V);
+      cbn [is_some orb]; rewrite ?get_deactivate, ?active_emit, ?get_activate, ?N.eqb_refl;
+      destruct (N.eqb_spec x a) as [->|?]; cbn [pred]; split; try (intros; discriminate); try (intros; reflexivity); try lia.
+  Qed.
+  Lemma Cn_cut s from a ep up : Cn s -> Cn (ve_cut V s from a ep up).
+  Proof.
+    intros H x. rewrite cells_cut. specialize (H x). destruct (get_cut s from a ep up x) as [H1 H2].
+    unfold cmp, strict_of in *. destruct (v_inprog_unguarded V); cbn [negb] in *; [lia|rewrite H2; auto].
+  Qed.
+  Lemma Cn_same s s' : active s' = active s -> cells s' = cells s -> Cn s -> Cn s'.
+  Proof. unfold Cn. intros -> ->. auto. Qed.
+
+  (* which cells are armed *)
+  Definition R1 (s s':st) : Prop := forall i x, arm (cells s') i x -> arm (cells s) i x.
+  Definition R2 (caller:option (nat*bool)) (s s':st) : Prop := forall i x, arm (cells s) i x -> caller = Some (i, true) \/ arm (cells s') i x.
+  Lemma cells_fire_cases s c : cells (fire s c) = cells s \/ cells (fire s c) = disarm c (cells s).
+  Proof. unfold fire. destruct (nth_error (cells s) c) as [[y [|]]|]; auto. right. rewrite cells_deactivate. reflexivity. Qed.
+  Lemma R1_fire s c : R1 s (fire s c).
+  Proof. intros i x H. destruct (cells_fire_cases s c) as [E|E]; rewrite E in H; [exact H|apply arm_disarm in H as [H _]; exact H]. Qed.
+  Lemma keep_fire s c i x : arm (cells s) i x -> i = c \/ arm (cells (fire s c)) i x.
+  Proof.
+    intros H. destruct (Nat.eq_dec i c) as [->|Hn]; [left; reflexivity|right].
+    destruct (cells_fire_cases s c) as [E|E]; rewrite E; [exact H|apply arm_disarm_other; assumption].
+  Qed.
+  Lemma fire_disarms s c x : ~ arm (cells (fire s c)) c x.
+  Proof.
+    unfold fire. destruct (nth_error (cells s) c) as [[y [|]]|] eqn:E.
+    - rewrite cells_deactivate. cbn [cells with_cells]. intros H. apply arm_disarm in H as [_ H]. congruence.
+    - unfold arm. rewrite E. congruence.
+    - unfold arm. rewrite E. congruence.
+  Qed.
+
+  Notation pre s from a e ap ep caller :=
+    (ve_early (ve_arrow (ve_reg s from a) from a e ap ep) from a (is_shown (ret_payload (ep_body ep))) caller).
+  Lemma cells_arrow s from a e ap ep : cells (ve_arrow (ve_reg s from a) from a e ap ep) = cells s.
+  Proof. prim_field. Qed.
+  Lemma active_arrow s from a e ap ep : active (ve_arrow (ve_reg s from a) from a e ap ep) = active s.
+  Proof. prim_field. Qed.
+  Lemma early_cases s from a sh caller :
+    ve_early s from a sh caller = s \/ exists c, caller = Some (c, true) /\ ve_early s from a sh caller = fire s c.
+  Proof. unfold ve_early. destruct caller as [[c [|]]|]; auto. destruct (_ && _); eauto. Qed.
+  Lemma pre_Tr s from a e ap ep caller : Tr s -> sender_ok s from -> Tr (pre s from a e ap ep caller).
+  Proof.
+    intros H Hs.
+    assert (H1 : Tr (ve_arrow (ve_reg s from a) from a e ap ep)).
+    { unfold ve_arrow. destruct (arrow_drawn from ap ep); [|apply Tr_reg, H]. apply Tr_arrow; [|apply Tr_reg, H].
+      unfold sender_ok in *. replace (active (ve_reg s from a)) with (active s); [exact Hs|]. unfold ve_reg, uniq_var. brk_goal; reflexivity. }
+    destruct (early_cases (ve_arrow (ve_reg s from a) from a e ap ep) from a (is_shown (ret_payload (ep_body ep))) caller) as [->|(c & _ & ->)];
+      [exact H1|apply Tr_fire, H1].
+  Qed.
+  Lemma pre_Cn s from a e ap ep caller : Cn s -> Cn (pre s from a e ap ep caller).
+  Proof.
+    intros H.
+    assert (H1 : Cn (ve_arrow (ve_reg s from a) from a e ap ep)) by (eapply Cn_same; [apply active_arrow|apply cells_arrow|exact H]).
+    destruct (early_cases (ve_arrow (ve_reg s from a) from a e ap ep) from a (is_shown (ret_payload (ep_body ep))) caller) as [->|(c & _ & ->)];
+      [exact H1|apply Cn_fire, H1].
+  Qed.
+  Lemma pre_R1 s from a e ap ep caller : R1 s (pre s from a e ap ep caller).
+  Proof.
+    intros i x H. rewrite <- (cells_arrow s from a e ap ep).
+    destruct (early_cases (ve_arrow (ve_reg s from a) from a e ap ep) from a (is_shown (ret_payload (ep_body ep))) caller) as [E|(c & _ & E)];
+      rewrite E in H; [exact H|eapply R1_fire, H].
+  Qed.
+  Lemma pre_R2 s from a e ap ep caller : R2 caller s (pre s from a e ap ep caller).
+  Proof.
+    intros i x H. rewrite <- (cells_arrow s from a e ap ep) in H.
+    destruct (early_cases (ve_arrow (ve_reg s from a) from a e ap ep) from a (is_shown (ret_payload (ep_body ep))) caller) as [E|(c & Ec & E)];
+      rewrite E; [right; exact H|]. destruct (keep_fire _ c _ _ H) as [->|H']; [left; exact Ec|right; exact H'].
+  Qed.
+
+  Lemma walk_ev_neutral a sndr e : walk_ev a sndr e -> neutral e = true.
+  Proof. destruct e; cbn; try contradiction; reflexivity. Qed.
+
+  (* the body of one expansion: own cell n (agent a, armed unless a is suppressed) *)
+  Lemma run_act call a sndr n b :
+    (forall s t te last s', call s t te last = Ok s' -> Tr s -> Cn s -> sender_ok s (Some a) ->
+                            Tr s' /\ Cn s' /\ R1 s s' /\ R2 (Some (n, last)) s s') ->
+    (b = true -> suppressed m a = true) ->
+    forall il, flag_ok il = true -> Forall (instr_ok a sndr) il ->
+    forall s1 s1', Tr s1 -> Cn s1 -> (forallb is_emit il = false -> b = false -> arm (cells s1) n a) ->
+      run call il s1 = Ok s1' ->
+      Tr s1' /\ Cn s1' /\ R1 s1 s1' /\ (forall i x, i <> n -> arm (cells s1) i x -> arm (cells s1') i x).
+  Proof.
+    intros IHc Hsup. induction il as [|ins r IH]; intros Hf Hok s1 s1' HT HC Harm H; cbn [run] in H.
+    - injection H as <-. repeat split; auto. intros i x Hx; exact Hx.
+    - inversion Hok as [|? ? Hi Hok']; subst. destruct ins as [ev|t te last].
+      + cbn [flag_ok] in Hf.
+        destruct (IH Hf Hok' (emit s1 ev) s1' (Tr_emit _ _ (walk_ev_neutral _ _ _ Hi) HT) (Cn_same _ _ eq_refl eq_refl HC) Harm H) as (T' & C' & R' & K').
+        repeat split; auto.
+      + destruct (call s1 t te last) as [s2| | |] eqn:E; try discriminate. cbn [bind] in H.
+        assert (Hs : sender_ok s1 (Some a)).
+        { intros Hst. destruct b eqn:Eb; [left; apply Hsup; reflexivity|right].
+          specialize (Harm eq_refl eq_refl). apply arm_armed in Harm. specialize (HC a). unfold cmp in HC. rewrite Hst in HC. lia. }
+        destruct (IHc _ _ _ _ _ E HT HC Hs) as (T2 & C2 & R12 & R22).
+        assert (Hr : flag_ok r = true) by (destruct last; [apply unflagged_flag_ok; cbn [flag_ok] in Hf; unfold unflagged; rewrite forallb_forall in *; intros i0 Hi0; specialize (Hf i0 Hi0); destruct i0; [reflexivity|discriminate]|exact Hf]).
+        assert (Harm2 : forallb is_emit r = false -> b = false -> arm (cells s2) n a).
+        { intros Hne Hb. destruct last; [cbn [flag_ok] in Hf; congruence|].
+          destruct (R22 _ _ (Harm eq_refl Hb)) as [Hc|Hc]; [discriminate|exact Hc]. }
+        destruct (IH Hr Hok' s2 s1' T2 C2 Harm2 H) as (T' & C' & R' & K').
+        repeat split; auto.
+        * intros i x Hx. apply R12, R', Hx.
+        * intros i x Hn Hx. apply K'; [exact Hn|]. destruct (R22 _ _ Hx) as [Hc|Hc]; [congruence|exact Hc].
+  Qed.
+
+  Lemma lookup_suppressed a e ap ep : lookup m a e = Some (ap, ep) -> suppressed m a = suppr ap.
+  Proof.
+    unfold lookup, suppressed. destruct (assoc a m) as [ap'|]; [|discriminate].
+    destruct (assoc e (app_eps ap')); [|discriminate]. intros [= -> _]. reflexivity.
+  Qed.
+
+  Lemma visit_endpoint_act fuel : forall bbs s from a e caller s',
+    visit_endpoint V m fuel bbs s from a e caller = Ok s' -> Tr s -> Cn s -> sender_ok s from ->
+    Tr s' /\ Cn s' /\ R1 s s' /\ R2 caller s s'.
+  Proof.
+    induction fuel as [|f IH]; intros bbs s from a e caller s' H HT HC HS; [discriminate|].
+    rewrite visit_endpoint_eq in H. destruct (lookup m a e) as [[ap ep]|] eqn:L; [|exfalso; eapply lookup_fail_not_ok, H].
+    cbv zeta in H.
+    pose proof (pre_Tr s from a e ap ep caller HT HS) as T2. pose proof (pre_Cn s from a e ap ep caller HC) as C2.
+    pose proof (pre_R1 s from a e ap ep caller) as R12. pose proof (pre_R2 s from a e ap ep caller) as R22.
+    set (s2 := ve_early _ _ _ _ _) in *.
+    destruct (ep_body ep) as [|x0 b0] eqn:Eb.
+    - injection H as <-. auto.
+    - destruct (_ || _) in H.
+      + injection H as <-. repeat split.
+        * apply Tr_cut, T2.
+        * apply Cn_cut, C2.
+        * intros i x Hx. rewrite cells_cut in Hx. apply R12, Hx.
+        * intros i x Hx. rewrite cells_cut. apply R22, Hx.
+      + rewrite !snd_activated in H. set (n := length (cells s2)) in *.
+        match type of H with bind ?r _ = _ => destruct r as [s5| | |] eqn:W; try discriminate end.
+        cbn [bind] in H. injection H as <-.
+        rewrite walk_flat in W. set (bsup := suppr ap) in *. set (s3 := fst (activated s2 a bsup)) in *.
+        assert (E3 : cells s3 = cells s2 ++ [(a, negb bsup)]) by apply cells_activated.
+        apply (run_act _ a (sender_of from) n bsup) in W.
+        * destruct W as (T5 & C5 & R45 & K45). change (cells (push_visited s3 a e)) with (cells s3) in *.
+          repeat split.
+          -- eapply Tr_same; [| |apply (Tr_fire s5 n T5)]; reflexivity.
+          -- eapply Cn_same; [| |apply (Cn_fire s5 n C5)]; reflexivity.
+          -- intros i x Hx. change (cells (pop_visited (fire s5 n) a e)) with (cells (fire s5 n)) in Hx.
+             assert (Hn : i <> n) by (intros ->; eapply fire_disarms, Hx).
+             apply R1_fire, R45 in Hx. change (cells (push_visited s3 a e)) with (cells s3) in Hx. rewrite E3 in Hx. apply arm_app_inv in Hx as [Hx|(Hi & _)]; [apply R12, Hx|contradiction].
+          -- intros i x Hx. destruct (R22 _ _ Hx) as [Hc|Hx2]; [left; exact Hc|right].
+             change (cells (pop_visited (fire s5 n) a e)) with (cells (fire s5 n)).
+             assert (Hn : i <> n) by (apply arm_lt in Hx2; unfold n; lia).
+             destruct (keep_fire s5 n i x) as [Hc|Hc]; [|contradiction|exact Hc].
+             apply K45; [exact Hn|]. rewrite E3. apply arm_app_l, Hx2.
+        * intros s1 t te last s1' Hc. eapply IH, Hc.
+        * intros Hb. rewrite (lookup_suppressed _ _ _ _ L). exact Hb.
+        * apply flag_ok_list.
+        * apply instrs_ok_list.
+        * eapply Tr_same; [| |apply (Tr_activated s2 a bsup T2)]; reflexivity.
+        * eapply Cn_same; [| |apply (Cn_activated s2 a bsup C2)]; reflexivity.
+        * intros _ Hb. change (cells (push_visited s3 a e)) with (cells s3). rewrite E3, Hb. unfold arm, n.
+          rewrite nth_error_app2, Nat.sub_diag by lia. reflexivity.
+  Qed.
+
+  Lemma run_entries_act fuel all : forall es bbs s s',
+    run_entries V m fuel all bbs s es = Ok s' -> Tr s -> Cn s -> Tr s' /\ Cn s' /\ R1 s s'.
+  Proof.
+    induction es as [|[a e] r IH]; intros bbs s s' H HT HC; cbn [run_entries] in H.
+    - injection H as <-. repeat split; auto. intros i x Hx; exact Hx.
+    - destruct (lookup m a e); [|discriminate].
+      match type of H with bind ?r _ = _ => destruct r as [s1| | |] eqn:W; try discriminate end. cbn [bind] in H.
+      apply visit_endpoint_act in W as (T1 & C1 & R1' & _).
+      + destruct (IH _ _ _ H T1 C1) as (T' & C' & R'). repeat split; auto. intros i x Hx. apply R1', R', Hx.
+      + eapply Tr_same; [| |apply (Tr_emit s (Section a e) eq_refl HT)]; reflexivity.
+      + eapply Cn_same; [| |exact HC]; reflexivity.
+      + intros _. exact I.
+  Qed.
+
+  Lemma no_arm_armed l x : (forall i y, ~ arm l i y) -> armed x l = 0.
+  Proof.
+    unfold arm, armed. induction l as [|[z b] t IH]; intros H; [reflexivity|]. cbn [filter fst snd].
+    destruct b.
+    - exfalso. apply (H 0 z). reflexivity.
+    - rewrite andb_false_r. apply IH. intros i y Hy. apply (H (S i) y). exact Hy.
+  Qed.
+
+  (* the judge accepts the whole body, and every counter is back at zero *)
+  Theorem seq_activations fuel bbs starts d ev :
+    gen V m fuel bbs starts = Ok (d, ev) -> exists l, track strict m [] ev = Some l /\ forall x, get x l = 0.
+  Proof.
+    intros H. unfold gen, gen_st in H. destruct (run_entries _ _ _ _ _ _ _) as [s| | |] eqn:R; try discriminate.
+    cbn [bind] in H. injection H as _ <-.
+    apply run_entries_act in R as (T & C & R1').
+    - exists (active s). split; [exact T|]. intros x. specialize (C x).
+      rewrite (no_arm_armed (cells s) x) in C.
+      + unfold cmp in C. destruct strict; lia.
+      + intros i y Hy. apply R1' in Hy. unfold arm in Hy. cbn [cells init] in Hy. destruct i; discriminate.
+    - reflexivity.
+    - intros x. unfold cmp. cbn. destruct strict; reflexivity.
+  Qed.
+End Activations.
+
+(* ---- the same, said with counts ---- *)
+Definition n_act (x:id) (evs:list event) : nat := length (filter (fun e => match e with Activate a => N.eqb a x | _ => false end) evs).
+Definition n_deact (x:id) (evs:list event) : nat := length (filter (fun e => match e with Deactivate a => N.eqb a x | _ => false end) evs).
+
+Lemma track_counts strict m evs : forall l0 l, track strict m l0 evs = Some l -> forall x, get x l + n_deact x evs = get x l0 + n_act x evs.
+Proof.
+  unfold n_act, n_deact. induction evs as [|e r IH]; intros l0 l H x; cbn [track] in H; [injection H as <-; cbn; lia|].
+  destruct e as [| [|p] ? ? | | | | | | | | | |]; cbn [filter]; try (apply IH, H).
+  - destruct (strict && _); [discriminate|apply IH, H].
+  - specialize (IH _ _ H x). rewrite get_set in IH. rewrite (N.eqb_sym a x). destruct (N.eqb_spec x a) as [Hxa|Hxa]; [subst a|]; cbn [length]; lia.
+  - destruct (get a l0) as [|n] eqn:E; [discriminate|]. specialize (IH _ _ H x). rewrite get_set in IH. rewrite (N.eqb_sym a x).
+    destruct (N.eqb_spec x a) as [Hxa|Hxa]; [subst a|]; cbn [length]; lia.
+Qed.
+
+(* per participant: as many deactivations as activations, and never more deactivations than activations so far *)
+Theorem seq_balanced V m fuel bbs starts d ev :
+  gen V m fuel bbs starts = Ok (d, ev) ->
+  forall x, n_act x ev = n_deact x ev /\ forall pre post, ev = pre ++ post -> n_deact x pre <= n_act x pre.
+Proof.
+  intros H x. destruct (seq_activations V m _ _ _ _ _ H) as (l & T & Z). split.
+  - pose proof (track_counts _ _ _ _ _ T x) as Hc. rewrite Z in Hc. cbn [get] in Hc. lia.
+  - intros pre post ->. rewrite track_app in T. destruct (track _ m [] pre) as [l1|] eqn:T1; [|discriminate].
+    pose proof (track_counts _ _ _ _ _ T1 x) as Hc. cbn [get] in Hc. lia.
+Qed.
+
+(* once the in-progress branch deactivates only what it activated: a participant draws a call arrow only while it
+   is active (or is a human / cron participant, which the generator never activates) *)
+Theorem seq_sender_active V m fuel bbs starts d ev :
+  v_inprog_unguarded V = false -> gen V m fuel bbs starts = Ok (d, ev) ->
+  forall pre x t e post, ev = pre ++ Arrow (P x) t e :: post -> suppressed m x = true \/ n_deact x pre < n_act x pre.
+Proof.
+  intros HV H pre x t e post ->. destruct (seq_activations V m _ _ _ _ _ H) as (l & T & _).
+  unfold strict_of in T. rewrite HV in T. cbn [negb] in T.
+  rewrite track_app in T. destruct (track true m [] pre) as [l1|] eqn:T1; [|discriminate].
+  cbn [track andb] in T. destruct (suppressed m x) eqn:S; [left; reflexivity|right].
+  cbn [orb] in T. destruct (0 <? get x l1) eqn:G; [|discriminate]. apply Nat.ltb_lt in G.
+  pose proof (track_counts _ _ _ _ _ T1 x) as Hc. cbn [get] in Hc. lia.
+Qed.
+
+(* today's source: the in-progress branch deactivates a participant it never activated, and that participant then
+   sends a call while inactive (DESIGN 5 C13: A.E0 = {B<-E0; C<-E0; return shown}, B.E0 = {A<-E0}) *)
+Definition inprog_module : module :=
+  [(0%N, {| app_pats := []; app_eps := [(0%N, {| ep_hidden := false; ep_body := [Call 1%N 0%N; Call 2%N 0%N; Ret RetShown] |})] |});
+   (1%N, {| app_pats := []; app_eps := [(0%N, {| ep_hidden := false; ep_body := [Call 0%N 0%N; Action] |})] |});
+   (2%N, {| app_pats := []; app_eps := [(0%N, {| ep_hidden := false; ep_body := [Action] |})] |})].
+Theorem seq_sender_active_refuted_when_unguarded :
+  exists d ev pre t e post,
+    gen {| v_lookup_panics := false; v_inprog_unguarded := true |} inprog_module (fuel_for inprog_module) [] [(0%N,0%N)] = Ok (d, ev)
+    /\ ev = pre ++ Arrow (P 0%N) t e :: post /\ suppressed inprog_module 0%N = false /\ n_act 0%N pre = n_deact 0%N pre.
+Proof.
+  eexists. eexists.
+  exists [Section 0%N 0%N; Arrow World 0%N 0%N; Activate 0%N; Arrow (P 0%N) 1%N 0%N; Activate 1%N; Arrow (P 1%N) 0%N 0%N;
+          Return (P 1%N) 0%N; Deactivate 0%N; Self 1%N; Deactivate 1%N].
+  eexists. eexists. eexists. vm_compute. repeat split; reflexivity.
+Qed.
+Example seq_sender_active_nonvacuous :
+  exists d ev, gen {| v_lookup_panics := false; v_inprog_unguarded := false |} inprog_module (fuel_for inprog_module) [] [(0%N,0%N)] = Ok (d, ev)
+               /\ n_act 0%N ev = 1 /\ length (arrows ev) = 4.
+Proof. eexists. eexists. vm_compute. repeat split; reflexivity. Qed.
